@@ -699,7 +699,11 @@ func (s *Server) netServe() error {
 						close = true // close connection
 						break
 					}
-					if msg != nil && msg.Command() != "" {
+					// An empty command name is answered like any unknown
+					// command; only an HTTP request without a command gets the
+					// HTTP error below.
+					if msg != nil && (msg.Command() != "" ||
+						(msg.ConnType != HTTP && msg.ConnType != WebSocket)) {
 						if client.outputType != Null {
 							msg.OutputType = client.outputType
 						} else if defaultOutputType != Null {
